@@ -22,4 +22,9 @@ theorem refs_resolve : ∀ m ∈ Prof.mesgs, m.numsOk = true ∧ m.refsResolve =
 theorem bitwidth_fit : ∀ m ∈ Prof.mesgs, m.bitsFit btSize Xlsx.fixedLens = true := by
   decide +kernel
 
+theorem mesgdef_matches_xlsx :
+    Mesgdef.tables.map (·.num) = Xlsx.mesgs.map (·.num) ∧
+    ∀ T ∈ Mesgdef.tables, tableMatchesXlsx (Xlsx.mesgs.map (Mesg.fix f14)) Xlsx.fixedLens Xlsx.fieldOrder T = true := by
+  decide +kernel
+
 end Fit.C17.Lemmas
